@@ -16,12 +16,13 @@ for log in sys.argv[1:]:
     prop, x = m.group(1), m.group(2)
     dst = os.path.join(V, 'kept', f'{prop}-{x}')
     os.makedirs(dst, exist_ok=True)
-    for f in ('patch.diff', 'demo.py', 'notes.md'):
-        shutil.copy(os.path.join(obj['dir'], f), os.path.join(dst, f))
+    for f in ('patch.diff', 'demo.py', 'notes.md', 'reference.json'):
+        if os.path.exists(os.path.join(obj['dir'], f)):
+            shutil.copy(os.path.join(obj['dir'], f), os.path.join(dst, f))
     meta = {'property': prop, 'origin': 'independent sub-agent asked for a substantial change that PRESERVES the property (only the property text and a scratch worktree were given)',
             'why_preserving': open(os.path.join(dst, 'notes.md')).read()[:1500],
             'confirmed': {'how': 'tools/keep_run.py confirm (scratch worktree of /repo HEAD, removed afterwards)',
-                          'demo_output_identical_clean_vs_patched': True,
+                          'demo_comparison': obj.get('mode', 'identical digest'),
                           'baseline_stable_tests_passed_with_patch': obj.get('tests_stable_passed')}}
     json.dump(meta, open(os.path.join(dst, 'meta.json'), 'w'), indent=1)
     print('adopted', prop, x)
